@@ -489,7 +489,7 @@ def check(drv, pid, tier, seed):
         import tablegen
         nv, table_extra = tablegen.table_check(drv, violation, pid, cfg, info, seed, tier, viol)
         viol += nv
-    nobl, names = drv.count_obligations(cfg['files'] + list(cfg.get('late_files') or []) + [f for g in (cfg.get('gen_proofs') or []) for f in (g if isinstance(g, list) else [g])] + list(cfg.get('queue_proofs') or []) + list(cfg.get('table_proofs') or []))
+    nobl, names = drv.count_obligations(cfg['files'] + list(cfg.get('late_files') or []) + [f for g in (cfg.get('gen_proofs') or []) for f in (g if isinstance(g, list) else [g])] + list(cfg.get('queue_proofs') or []) + [f for e in (cfg.get('table_proofs') or []) for f in (e if isinstance(e, list) else [e])])
     ndis = nobl
     if static is not None and not static['ok']:
         ndis = nobl - max(1, len(static.get('failing_lemmas') or []))
